@@ -43,6 +43,7 @@ ROLES = ('passive', 'active-addr', 'active-name')
 ID_ADDR, ID_ADDR_OTHER = 1, 2
 ID_DNS, ID_DNS_OTHER = 11, 12
 ID_NODE, ID_NODE_OTHER = 21, 22
+ID_EMPTY = 0  # the empty string (node ID '' / connect name '' / empty SAN value)
 
 _KEY = ed25519.Ed25519PrivateKey.from_private_bytes(bytes(range(1, 33)))
 _CERT_CACHE = {}
@@ -72,6 +73,9 @@ def make_cert(fam, san):
             'uri_ok': x509.UniformResourceIdentifier(NODE_OK),
             'uri_other': x509.UniformResourceIdentifier(NODE_OTHER),
             'email': x509.RFC822Name('ops@peer.example'),
+            # empty identifiers (cryptography encodes and decodes them unchanged)
+            'dns_empty': x509.DNSName(''),
+            'uri_empty': x509.UniformResourceIdentifier(''),
         }
         names = [table[tag] for tag in san]
         if not names:
